@@ -4,7 +4,7 @@
    Initiated has been stored since" — i.e. PauseAndWait / Stop / WaitAndStop has returned and
    neither Resume nor Restart has been called. *)
 From Coq Require Import List Arith.
-From VQ Require Import SliceDisp SliceDispProofs SliceBar SliceBarProofs Fifo FifoProofs.
+From VQ Require Import SliceDisp SliceDispProofs SliceBar SliceBarProofs SliceWake SliceWakeProofs Fifo FifoProofs.
 Import ListNotations.
 
 (* While the hold lasts no worker function is executing, none can start, no dispatcher can
@@ -67,6 +67,16 @@ Theorem C09_fresh_caller_holds :
     okr (xd s) = 0 /\ oth (xd s) = 0.
 Proof. exact fresh_caller_holds. Qed.
 Print Assumptions C09_fresh_caller_holds.
+
+(* "... they are all processed after Resume or Restart": on the wake-up protocol (coq/SliceWake.v)
+   a resumed worker with pending jobs below its limit is never left asleep — whenever the event
+   loop is parked while its guard (running, a free slot, something pending) is true, a signal is
+   buffered or some thread still owes one; this covers jobs accepted while the worker was halted
+   and submissions that straddle the Resume. *)
+Theorem C09_resumed_worker_is_woken :
+  forall s, KReachable s -> kparked s = true -> guard s = true -> ksig s = true \/ kowed s >= 1.
+Proof. exact no_lost_wakeup. Qed.
+Print Assumptions C09_resumed_worker_is_woken.
 
 (* non-vacuity: a Stop that goes straight from Running to Stopped on an idle worker (it read 0
    in flight while the worker was running) has not established: its return is outside the model *)
